@@ -139,6 +139,8 @@ def run(facts, rep, tier):
         if rep.floor("C13.D1", "unknown-crate policy match in the not-configured branch", len(pol), 1):
             spec = {"Allow": ("value", "unit"), "Generate": ("ret-none",), "Deny": ("ret-none",)}
             got = {}
+            from lib import table_is_plain
+            table_is_plain(rep, "C13.D1", "unknown-crate-policy", pol[0])
             for arm in pol[0]["arms"]:
                 for tv in pat_top_variants(arm["pat"]):
                     got[tv.split("::")[-1]] = (outcome(arm["body"]), arm)
